@@ -190,7 +190,9 @@ def main(argv=None):
         except BaseException as ex:  # noqa
             res = "EXC:" + type(ex).__name__
         if res == e["signature"]:
-            known_lines.append("KNOWN-FINDING: property=%s %s" % (prop, e["what"]))
+            ln = "KNOWN-FINDING: property=%s %s" % (prop, e["what"])
+            if ln not in known_lines:
+                known_lines.append(ln)
         elif res == "":
             out_lines.append("note: known finding %s no longer reproduces on this tree" % e["key"])
         else:
